@@ -178,6 +178,10 @@ def install(reg):
             a, b = args[0].z, args[1].z
             return [(st, mk_int(z3.If(a <= b, a, b) if name == 'min' else z3.If(a >= b, a, b)))]
         return None
+    @M('bytearray')
+    def _bytearray(e, st, args, kw, node):
+        if args: return None
+        return [(st, e.alloc(st, BYTES, z3.Empty(sort_of(BYTES))))]
     @M('abs')
     def _abs(e, st, args, kw, node):
         if args[0].t == INT: return [(st, mk_int(z3.If(args[0].z >= 0, args[0].z, -args[0].z)))]
